@@ -149,21 +149,61 @@ def writer_call(f, ext, t):
         raise RuntimeError("no writer for " + ext)
 
 
-def do_action(case, base):
+class PathLikeWrapper(os.PathLike):
+    """an os.PathLike that is neither str nor pathlib.Path"""
+
+    def __init__(self, p):
+        self._p = p
+
+    def __fspath__(self):
+        return self._p
+
+
+def path_arg(base, kind):
+    """the object handed to mdtraj for the path `base` (a str)"""
+    import pathlib
+    if kind in ("str", "weird"):
+        return base
+    if kind == "path":
+        return pathlib.Path(base)
+    if kind == "pathlike":
+        return PathLikeWrapper(base)
+    if kind == "bytes":
+        return os.fsencode(base)
+    if kind == "rel":
+        return os.path.basename(base)          # the caller has chdir'ed into the directory
+    if kind == "slash":
+        return base + "/"
+    raise RuntimeError("kind " + kind)
+
+
+def do_action(case, base, kind="str"):
     ext, entry, frames, force = case["ext"], case["entry"], case["frames"], case["force"]
     new = make_traj(list(range(frames)))
+    cwd = os.getcwd()
     try:
+        if kind == "rel":
+            os.chdir(os.path.dirname(base))
+        arg = path_arg(base, kind)
         if entry == "save":
-            new.save(base, force_overwrite=force)
+            new.save(arg, force_overwrite=force)
         elif entry == "open":
-            f = md.open(base, "w", force_overwrite=force)
+            f = md.open(arg, "w", force_overwrite=force)
             try:
                 writer_call(f, ext, new)
             finally:
                 f.close()
         elif entry == "open_only":
-            f = md.open(base, "w", force_overwrite=force)
+            f = md.open(arg, "w", force_overwrite=force)
             f.close()
+        elif entry == "class":
+            from mdtraj.formats.registry import FormatRegistry
+            cls = FormatRegistry.fileobjects["." + ext]
+            f = cls(arg, mode="w", force_overwrite=force)
+            try:
+                writer_call(f, ext, new)
+            finally:
+                f.close()
         else:
             raise RuntimeError("entry " + entry)
         return None, None
@@ -171,6 +211,8 @@ def do_action(case, base):
         if isinstance(e, (KeyboardInterrupt, SystemExit)):
             raise
         return type(e).__name__, str(e)[:200]
+    finally:
+        os.chdir(cwd)
 
 
 def place_pre(case, d, path):
@@ -203,7 +245,9 @@ def observed_paths(base):
 
 def run_case(case, root, idx):
     ext = case["ext"]
-    d = os.path.join(root, "c%d" % idx)
+    kind = case.get("arg", "str")
+    top = os.path.join(root, "c%d" % idx)
+    d = os.path.join(top, "My Dir.v1.2", "Sub dir") if kind == "weird" else top
     r = os.path.join(root, "r%d" % idx)
     os.makedirs(d)
     os.makedirs(r)
@@ -212,12 +256,21 @@ def run_case(case, root, idx):
     pre_path = base if case["pre_at"] == 0 else "%s.%d" % (base, case["pre_at"])
     place_pre(case, d, pre_path)
     before = [snap(p) for p in observed_paths(base)]
-    raised, msg = do_action(case, base)
+    cwd_before = set(os.listdir(os.getcwd()))
+    raised, msg = do_action(case, base, kind)
     after = [snap(p) for p in observed_paths(base)]
+    stray_cwd = sorted(set(os.listdir(os.getcwd())) - cwd_before)
+    for x in stray_cwd:
+        q = os.path.join(os.getcwd(), x)
+        if os.path.isdir(q):
+            shutil.rmtree(q, ignore_errors=True)
+        else:
+            os.unlink(q)
     # reference: the same operation at a fresh path
     rraised, _ = do_action(case, rbase)
     ref = [snap(p) for p in observed_paths(rbase)]
     status, detail = [], []
+    plain = False
     frames = case["frames"]
     for i, p in enumerate(observed_paths(base)):
         b, a, rf = before[i], after[i], ref[i]
@@ -234,15 +287,29 @@ def run_case(case, root, idx):
             if not same and ext in NONDETERMINISTIC:
                 same = a[2] == rf[2]
                 if ext.endswith(".gz"):
-                    same = content_digest(p, ext) == content_digest(observed_paths(rbase)[i], ext) \
-                        and content_digest(p, ext) is not None
+                    mine = content_digest(p, ext)
+                    if mine is None and os.path.isfile(p):
+                        # not gzip at all (open_maybe_zipped does not recognise the suffix of a bytes path):
+                        # the payload is then the file itself
+                        mine = sha_file(p)
+                    same = mine == content_digest(observed_paths(rbase)[i], ext) and mine is not None
+                    plain = content_digest(p, ext) is None
             if same and case["entry"] != "open_only":
                 # must also load to exactly the frames written into this path
                 want = list(range(frames)) if i == 0 else [i - 1]
-                if case["entry"] == "open" and ext in SINGLE_FRAME:
+                if case["entry"] in ("open", "class") and ext in SINGLE_FRAME:
                     want = [0]
                 try:
-                    got = frame_ids(load_any(p, ext))
+                    if plain:
+                        # load the uncompressed payload under its real format
+                        q = p + ".plain." + ext[:-3]
+                        shutil.copy(p, q)
+                        try:
+                            got = frame_ids(load_any(q, ext[:-3]))
+                        finally:
+                            os.unlink(q)
+                    else:
+                        got = frame_ids(load_any(p, ext))
                 except Exception as e:  # noqa: BLE001
                     got = "load failed: %s" % type(e).__name__
                 if got != want:
@@ -259,10 +326,10 @@ def run_case(case, root, idx):
             detail.append("path %d: %s" % (i, why))
     known = set(os.path.basename(p) for p in observed_paths(base))
     stray = sorted(x for x in os.listdir(d) if x not in known)
-    shutil.rmtree(d, ignore_errors=True)
+    shutil.rmtree(top, ignore_errors=True)
     shutil.rmtree(r, ignore_errors=True)
     return {"raised": raised, "msg": msg, "status": status, "stray": stray, "detail": detail,
-            "ref_raised": rraised}
+            "ref_raised": rraised, "stray_cwd": [x[:60] for x in stray_cwd]}
 
 
 # ------------------------------------------------------------------ read entry points
